@@ -237,6 +237,62 @@ type vchStopDB struct {
 	limit     int  // -1: unlimited
 	rollback  bool // refuse by executing + rolling back
 	rawTx     int  // BeginReadWriteTx calls (not expected from the state machine)
+
+	// RETRY mode (kvdb contract: the closure of Update / View may be executed
+	// several times, reset is called before every execution, only the last
+	// execution counts - what the SQL backends do after a serialization
+	// failure): every read-write transaction that is going to commit is first
+	// executed 1-2 times against the real backend and ROLLED BACK (reset runs
+	// before each execution), then executed once more and committed; every
+	// View closure is executed twice.
+	retry   bool
+	txSeq   uint64 // transactions seen (chooses 1 or 2 forced retries)
+	retried int    // forced retries since begin()
+}
+
+var errVchRetry = errors.New("vch: forced transaction retry")
+
+// forceRetries executes f against the real backend and rolls it back, once or
+// twice.  A closure error other than the sentinel is returned (the real
+// execution would fail the same way).
+func (d *vchStopDB) forceRetries(f func(tx walletdb.ReadWriteTx) error,
+	reset func()) error {
+
+	d.txSeq++
+	n := 1
+	if d.txSeq%3 == 0 {
+		n = 2
+	}
+	for i := 0; i < n; i++ {
+		err := d.Backend.Update(func(tx walletdb.ReadWriteTx) error {
+			if err := f(tx); err != nil {
+				return err
+			}
+			return errVchRetry
+		}, reset)
+		if err == nil {
+			panic("vch: a transaction that returned an error committed")
+		}
+		if !errors.Is(err, errVchRetry) &&
+			!strings.Contains(err.Error(), errVchRetry.Error()) {
+
+			return err
+		}
+		d.retried++
+	}
+	return nil
+}
+
+func (d *vchStopDB) View(f func(tx walletdb.ReadTx) error, reset func()) error {
+	d.mu.Lock()
+	retry := d.retry
+	d.mu.Unlock()
+	if retry {
+		if err := d.Backend.View(f, reset); err != nil {
+			return err
+		}
+	}
+	return d.Backend.View(f, reset)
 }
 
 func (d *vchStopDB) Update(f func(tx walletdb.ReadWriteTx) error,
@@ -265,6 +321,11 @@ func (d *vchStopDB) Update(f func(tx walletdb.ReadWriteTx) error,
 			return fmt.Errorf("%w (closure: %v)", errVchStop, err)
 		}
 		return err
+	}
+	if d.retry {
+		if err := d.forceRetries(f, reset); err != nil {
+			return err
+		}
 	}
 	err := d.Backend.Update(f, reset)
 	if err == nil {
@@ -305,8 +366,14 @@ func (d *vchStopDB) disarm() (int, int, int) {
 // begin / end count the transactions committed in between.
 func (d *vchStopDB) begin() {
 	d.mu.Lock()
-	d.count = 0
+	d.count, d.retried = 0, 0
 	d.mu.Unlock()
+}
+
+func (d *vchStopDB) endRetried() int {
+	d.mu.Lock()
+	defer d.mu.Unlock()
+	return d.retried
 }
 
 func (d *vchStopDB) end() int {
@@ -1009,6 +1076,9 @@ func (c *vchCtx) txEnd(p int, kind string, extra map[string]any) map[string]any 
 		extra = map[string]any{}
 	}
 	extra["ntx"] = n
+	if nr := c.db[p].endRetried(); nr > 0 {
+		extra["nretry"] = nr
+	}
 	if c.maxTx != nil && n > c.maxTx[kind] {
 		c.maxTx[kind] = n
 	}
@@ -1413,6 +1483,16 @@ func (c *vchCtx) doSide(p int, kind string) string {
 			if err := st.ApplyChanStatus(bit); err != nil {
 				return err
 			}
+			// ClearChannelStatus' closure is NOT retry-safe (finding
+			// C02-F-retry: it assigns to its captured `status` parameter).
+			// VERIF_CHAN_RETRY_STATUS=0 suspends the forced retries for
+			// this one call so that the rest can be judged.
+			if d := c.db[p]; d != nil && d.retry &&
+				vEnvInt("VERIF_CHAN_RETRY_STATUS", 1) == 0 {
+
+				d.retry = false
+				defer func() { d.retry = true }()
+			}
 			return st.ClearChanStatus(bit)
 		case "shutdown_info":
 			return st.MarkShutdownSent(chanstate.NewShutdownInfo(
@@ -1512,14 +1592,19 @@ func (c *vchCtx) restartCore(extra map[string]any, dead, armP, armK int,
 		c.txBegin(p)
 	}
 	ntxSync := map[string]any{}
+	nretrySync := map[string]any{}
 	defer func() {
 		for p := 0; p < 2; p++ {
 			if c.db[p] != nil {
 				ntxSync[vchNames[p]] = c.db[p].end()
+				if nr := c.db[p].endRetried(); nr > 0 {
+					nretrySync[vchNames[p]] = nr
+				}
 			}
 		}
 	}()
 	extra["ntx_sync"] = ntxSync
+	extra["nretry_sync"] = nretrySync
 	for p := 0; p < 2; p++ {
 		var lc *LightningChannel
 		res := vchSafe(func() error {
@@ -2567,6 +2652,7 @@ type vchScript struct {
 	Ops        [][]any `json:"ops"`
 	ExpectLast string  `json:"expect_last"` // copied into the row
 	Backend    string  `json:"backend"`     // "" | bbolt | sqlite (if linked in)
+	Retry      *bool   `json:"retry"`       // force / forbid the kvdb RETRY mode
 	origin     string
 }
 
@@ -2798,6 +2884,16 @@ func TestVerifChan(t *testing.T) {
 					t.Fatalf("vchMakeDestPkg: %v", err)
 				}
 			}
+			// RETRY mode of the kvdb wrappers (VERIF_CHAN_RETRY_PCT percent
+			// of the cases, default 25, on either backend)
+			kvRetry := int64(master.fork(uint64(ci)^0x2f6b1d).intn(100)) <
+				vEnvInt("VERIF_CHAN_RETRY_PCT", 25)
+			if sc != nil && sc.Retry != nil {
+				kvRetry = *sc.Retry
+			}
+			for _, d := range dbs {
+				d.retry = kvRetry
+			}
 			c := &vchCtx{
 				db: dbs, backend: backend, crashIn: crashInOn,
 				maxTx:  map[string]int{},
@@ -2829,7 +2925,7 @@ func TestVerifChan(t *testing.T) {
 			}
 			row := map[string]any{
 				"case": ci, "seed": vSeed(), "chan_type": ty.name,
-				"backend": backend,
+				"backend": backend, "kvdb_retry": kvRetry,
 				"cfg":     c.cfg(ty.name),
 				"init": map[string]any{
 					"a": c.partyDump(a), "b": c.partyDump(b),
